@@ -130,8 +130,12 @@ def cases_of_trace(tr):
         if E["fcalls"] and yv is not None:
             ys = [c["out"][1] for c in E["fcalls"]]
             sds = [(c["out"][2] if E["spec"] else 0.0) for c in E["fcalls"]]
-            sdl = E["sels"][0].get("sdlast") if (E["sels"] and E["spec"]) else 0.0
-            args = f"{_ql(ys)} {_ql(sds)} {_q(cy)} {_q(cf)} {_q(cs)} {_q(sdl if sdl is not None else 0.0)} {_b(E['spec'])}"
+            # the SD supplement is GENERATED from the log (rows X[: Xn + 1], SDs S, the chosen internal point, Xn): only consulted with exactly one final sample
+            sup = "(0 # 1)"
+            if E["spec"] and len(E["fcalls"]) == 1 and E["logS"] and tr["final"].get("logX"):
+                lx = tr["final"]["logX"]
+                sup = f"(src_fs_sdsuppl {clist([_ql(r) for r in lx])} {_ql(E['logS'])} {_ql(cu)} {_z(len(lx) - 1)})"
+            args = f"{_ql(ys)} {_ql(sds)} {_q(cy)} {_q(cf)} {_q(cs)} {sup} {_b(E['spec'])}"
             out.append((f"(qlist_eqb_v (src_fs_yvec {args}) {_ql(yv)})", L("yval_vec")))
             if E["spec"] and E["res"]["ysd_vec"] is not None:
                 out.append((f"(qlist_eqb_v (src_fs_sdvec {args}) {_ql(E['res']['ysd_vec'])})", L("ysd_vec")))
@@ -169,7 +173,7 @@ def tie_final(ctx, broken, out, name):
                 continue
             exprs.append(expr)
             where.append((ti, label))
-    okc, bad, log = core.run_cases(f"finalsrc_{ctx.pid}_{name}", ["PV.Model.Val", "PV.Model.Skeleton", "PV.Model.SkeletonNoisy", "PV.gen.Src_final", "PV.Model.FinalSrc"],
+    okc, bad, log = core.run_cases(f"finalsrc_{ctx.pid}_{name}", ["PV.Model.Val", "PV.Model.Skeleton", "PV.Model.SkeletonNoisy", "PV.Model.FinalLib", "PV.gen.Src_final", "PV.Model.FinalSrc"],
                                    "bool", "fun c => c", exprs, shard=max(20, len(exprs) // 12 + 1))
     ok = ctx.oblige(f"correspondence:final_src:{name}", "correspondence", okc and not bad and not xbad,
                     f"{len(bad)} of {len(exprs)} decisions of {n_end} recorded end-games ({n_ran} noisy end-games, {n_sampled} re-sampled) differ from the generated definitions; "
@@ -335,8 +339,9 @@ def mon_final(tr):
 def mon_c05_sdsuppl(tr):
     """C05, last clause of its first sentence: "ysd_vec holds the SDs the target reported for them [the observations in yval_vec] when noise is specified".
     With exactly one final sample yval_vec is supplemented by the earlier observation at x; the SD paired with it must then be an SD the target reported AT x
-    (or the logger's SD of the row of x).  Kept apart from mon_c05 / mon_final: it is an OPEN KNOWN FINDING of the unchanged code (the code appends
-    function_logger.S[function_logger.Xn], the SD of the LAST logged row, whatever point that row holds) and must never hide another violation."""
+    (or the logger's SD of the row of x).  A hit is a CONCRETE violation of C05 (the text states the clause).  History: the unchanged code used to append
+    function_logger.S[function_logger.Xn], the SD of the LAST logged row (finding ysd-supplement-not-at-x, repaired: the supplement is now the SD of the first
+    logged row equal to the returned internal point; seeded/C05-revert-ysd-supplement restores the old form)."""
     E = endgame(tr)
     if E is None or not E["spec"] or len(E["fcalls"]) != 1 or E["res"]["ysd_vec"] is None or len(E["res"]["ysd_vec"]) != 2:
         return None
@@ -358,7 +363,7 @@ def mon_c05_sdsuppl(tr):
 # there means the tie between model and code is broken - reported as a failed obligation `correspondence:final_rules`; the property's own monitors
 # (mon_c05, mon_c03, the C19 run monitor) decide whether a failing input exists.
 PROPERTY_KEYS = {
-    "C05": {"final-yvec", "final-mean-sem"},        # yval_vec = the fresh observations (+ the earlier observation at x), fval / fsd = its mean / SEM
+    "C05": {"final-yvec", "final-mean-sem", "ysd-supplement-not-at-x"},   # (the last key is reported by mon_c05_sdsuppl)  yval_vec = the fresh observations (+ the earlier observation at x), fval / fsd = its mean / SEM
     "C19": {"result-field:mesh_size", "result-field:func_count", "result-field:x0", "result-field:random_seed"},   # ... agree with the problem and the final state
     "C03": {"result-field:func_count"},             # the reported func_count equals the true number of target calls
 }
